@@ -337,7 +337,73 @@ func (ex *Exec) bigGCD(a, b BigVal, wantX, wantY bool) (g, x, y BigVal) {
 	return BigVal{I: gi}, BigVal{I: xi}, BigVal{I: yi}
 }
 
+// bigXorUF: XOR of wide non-negative symbolic operands as an uninterpreted, commutative involution:
+// xor(xor(a,b),b) = a is applied syntactically and asserted for every application created
+// (so that the solver can use it through congruence); xor(a,a) = 0, xor(a,0) = a.
+func (ex *Exec) bigXorUF(x, y BigVal) (BigVal, bool) {
+	a, b := x.I, y.I
+	for _, t := range []*smt.Term{a, b} {
+		if t.Lo == nil || t.Lo.Sign() < 0 || t.Hi == nil {
+			return BigVal{}, false
+		}
+	}
+	if a.Hi.BitLen() <= 64 && b.Hi.BitLen() <= 64 {
+		return BigVal{}, false // narrow operands: exact bitwise model
+	}
+	if a == b {
+		return bigConst(0), true
+	}
+	if v, ok := a.ConstInt(); ok && v.Sign() == 0 {
+		return BigVal{I: b}, true
+	}
+	if v, ok := b.ConstInt(); ok && v.Sign() == 0 {
+		return BigVal{I: a}, true
+	}
+	w := a.Hi.BitLen()
+	if b.Hi.BitLen() > w {
+		w = b.Hi.BitLen()
+	}
+	hi := new(big.Int).Sub(smt.Pow2Big(uint(w)), big.NewInt(1))
+	mk := func(u, v *smt.Term) *smt.Term {
+		if u.ID > v.ID {
+			u, v = v, u
+		}
+		t := smt.App("bvxor", smt.Int, big.NewInt(0), hi, u, v)
+		// commutativity, for the solver's congruence reasoning (the canonical argument order is only syntactic)
+		ex.assume(smt.Eq(t, smt.App("bvxor", smt.Int, big.NewInt(0), hi, v, u)))
+		return t
+	}
+	for _, pr := range [][2]*smt.Term{{a, b}, {b, a}} {
+		if t := pr[0]; t.Op == smt.OApp && t.Name == "bvxor" {
+			if t.Args[0] == pr[1] {
+				return BigVal{I: t.Args[1]}, true
+			}
+			if t.Args[1] == pr[1] {
+				return BigVal{I: t.Args[0]}, true
+			}
+		}
+	}
+	t := mk(a, b)
+	ex.assume(smt.Eq(mk(t, a), b))
+	ex.assume(smt.Eq(mk(t, b), a))
+	// xor(a,b) = 0 exactly when a = b (equality decided with the genericity rules where they apply)
+	ex.assume(smt.Eq(smt.Eq(t, smt.I64(0)), ex.termEq(a, b)))
+	ex.stubs["big.Int.Xor on wide symbolic operands is an uninterpreted commutative involution (xor(xor(a,b),b) = a)"] = true
+	return BigVal{I: t}, true
+}
+
+// promoteReduced: a plain integer of the syntactic form (v mod N) compared with a reduced group element
+// modulo N is itself a reduced element: the atom standing for it
+func (ex *Exec) promoteReduced(x, other BigVal) BigVal {
+	if x.G == nil && other.G != nil && other.G.Reduced && x.I.Op == smt.OMod && len(x.I.Args) == 2 && x.I.Args[1] == other.G.Mod {
+		f := ex.facetFor(x, other.G.Mod)
+		return BigVal{I: x.I, G: &GroupFacet{Mod: f.Mod, Exps: f.Exps, Reduced: true}}
+	}
+	return x
+}
+
 func (ex *Exec) bigCmp(x, y BigVal) *smt.Term {
+	x, y = ex.promoteReduced(x, y), ex.promoteReduced(y, x)
 	// a reduced group element is smaller than its modulus
 	if x.G != nil && x.G.Reduced && y.G == nil && y.I == x.G.Mod {
 		return smt.I64(-1)
@@ -574,6 +640,11 @@ func registerBigModels(P *Program) {
 					if yv.Sign() == 0 {
 						return bigConst(0)
 					}
+				}
+			}
+			if op == token.XOR {
+				if big, ok := ex.bigXorUF(x, y); ok {
+					return big
 				}
 			}
 			// bounded non-negative operands only
